@@ -225,6 +225,39 @@ def routing_notify_refused(kinds, mode):
     return "ok"
 
 
+class _Legacy:
+    """per-request stream of the legacy API (new_request_stream): the read stream must get the message regardless"""
+
+    def __init__(self, mode):
+        self.mode, self.items, self.closed = mode, [], 0
+
+    async def send(self, item):
+        if self.mode == 1:
+            raise _anyio.BrokenResourceError()
+        self.items.append(item)
+
+    async def aclose(self):
+        self.closed += 1
+
+
+def routing_legacy_pending(kinds, mode, key_as_int):
+    """a legacy per-request stream is registered for the id of the response in the stream"""
+    data, exp_main, exp_notif = _encode(kinds, False)
+    leg = _Legacy(mode)
+
+    def prep(client):
+        client._pending["1"] = leg
+        client._pending["s-1"] = _Legacy(mode)
+
+    c, _ = _run_reader([data], record_json=False, prepare=prep)
+    main = [dump(m) for m in c._incoming_send.items]
+    if not same_json(main, exp_main):
+        return "main-stream-differs-when-a-legacy-stream-is-pending"
+    if mode == 0 and "resp" in kinds and len(leg.items) != 1:
+        return "legacy-stream-did-not-get-its-response"
+    return "ok"
+
+
 def routing(kinds, crlf, i, d):
     """chunks [data[:i], data[i:i+d], data[i+d:]] (d = 0: two chunks) - every cut position i is one path"""
     data, exp_main, exp_notif = _encode(kinds, crlf)
